@@ -319,15 +319,12 @@ pub fn mut_run(start: usize, seq: &[usize]) -> Option<String> {
 /// bound: 3 start values x every sequence of <= 3 of the operations in ops()
 pub fn mut_search() -> Option<(Vec<u8>, String)> {
     let n = ops().len();
-    for s in 0..STARTS.len() {
-        for i in 0..n {
-            if let Some(d) = mut_run(s, &[i]) { return Some((format!("{}:{}", s, i).into_bytes(), d)); }
-            for j in 0..n {
-                if let Some(d) = mut_run(s, &[i, j]) { return Some((format!("{}:{},{}", s, i, j).into_bytes(), d)); }
-                for k in 0..n { if let Some(d) = mut_run(s, &[i, j, k]) { return Some((format!("{}:{},{},{}", s, i, j, k).into_bytes(), d)); } }
-            }
-        }
-    }
+    // shortest sequences first, so that a reported history is minimal in length
+    for s in 0..STARTS.len() { for i in 0..n { if let Some(d) = mut_run(s, &[i]) { return Some((format!("{}:{}", s, i).into_bytes(), d)); } } }
+    for s in 0..STARTS.len() { for i in 0..n { for j in 0..n { if let Some(d) = mut_run(s, &[i, j]) { return Some((format!("{}:{},{}", s, i, j).into_bytes(), d)); } } } }
+    for s in 0..STARTS.len() { for i in 0..n { for j in 0..n { for k in 0..n {
+        if let Some(d) = mut_run(s, &[i, j, k]) { return Some((format!("{}:{},{},{}", s, i, j, k).into_bytes(), d)); }
+    } } } }
     None
 }
 pub fn mut_replay(token: &[u8]) -> Option<String> {
